@@ -45,6 +45,16 @@
 
 #define CO_UNUSED(var)    (void)(var)
 
+/* copy a value from / to a buffer of any alignment (the SDO transfer buffer
+ * of the second and further servers starts at an odd address)
+ */
+#define CO_BUF_GET(var,buf)    \
+    do { uint8_t n_; for (n_ = 0; n_ < (uint8_t)sizeof(var); n_++) { \
+        ((uint8_t *)&(var))[n_] = ((const uint8_t *)(buf))[n_]; } } while (0)
+#define CO_BUF_SET(buf,var)    \
+    do { uint8_t n_; for (n_ = 0; n_ < (uint8_t)sizeof(var); n_++) { \
+        ((uint8_t *)(buf))[n_] = ((const uint8_t *)&(var))[n_]; } } while (0)
+
 #define ASSERT_PTR_ERR(ptr,err)    \
     if ((void*)(ptr) == NULL) { return (err); }
 
